@@ -134,6 +134,9 @@ pub fn gen_case(rng: &mut Rng) -> Case {
         for i in 0..n { g += b[i] * ys[k][i]; }
         let c = if rng.chance(0.15) { g } else { g + rng.range(-0.3, 0.3) };
         let terminal = if rng.chance(0.35) { Some(1 + rng.below(2)) } else { None };
+        // now and then the whole event function is scaled to the edge of the f64 range (sign tests on products underflow)
+        let sc = if rng.chance(0.12) { [1e-170, 1e-300, 1e200, 1e-13][rng.below(4)] } else { 1.0 };
+        let (a, b, c) = (a * sc, b.iter().map(|v| v * sc).collect::<Vec<f64>>(), c * sc);
         events.push(EventSpec { a, b, c, dir: [-1, 0, 1][rng.below(3)], terminal });
     }
     // output mode
